@@ -1324,6 +1324,9 @@ pub enum Param {
     Variadic,
     /// nested unpack: number of fixed elements, rest position (None / Some(true)=leading / Some(false)=trailing), rest named
     Unpack(usize, Option<bool>, bool),
+    /// `(rest..., (a, b), last)` / `(rest..., {x, y}, last)`: a nested pattern after a leading ellipsis;
+    /// Some((k1, k2)) = map pattern with these keys, bool = the rest is named
+    UnpackNested(Option<(String, String)>, bool),
     Ignored,
 }
 
@@ -1343,9 +1346,13 @@ impl<'a> G<'a> {
         let mut params = vec![];
         let n_plain = self.s.below(3);
         for _ in 0..n_plain {
-            let c = self.s.weighted(&[70, 20, 10]);
+            let c = self.s.weighted(&[66, 18, 8, 8]);
             params.push(match c {
                 0 => Param::Plain,
+                3 => {
+                    let keys = if self.s.chance(50) { Some((self.fresh("kx"), self.fresh("ky"))) } else { None };
+                    Param::UnpackNested(keys, self.s.chance(50))
+                }
                 1 => {
                     let n = 1 + self.s.below(3) as usize;
                     let rest = match self.s.below(4) {
@@ -1395,6 +1402,34 @@ impl<'a> G<'a> {
                     let n = self.fresh("vs");
                     binds.push((n.clone(), K::Tuple));
                     args.push(FnArg { pat: Pat::Id(n, None), default: None, variadic: true });
+                }
+                Param::UnpackNested(keys, named) => {
+                    self.feat("unpack-nested-after-rest");
+                    let mut ps = vec![];
+                    if *named {
+                        let n = self.fresh("ur");
+                        binds.push((n.clone(), K::Tuple));
+                        ps.push(Pat::Rest(Some(n)));
+                    } else {
+                        ps.push(Pat::Rest(None));
+                    }
+                    match keys {
+                        Some((k1, k2)) => {
+                            binds.push((k1.clone(), K::Num));
+                            binds.push((k2.clone(), K::Num));
+                            ps.push(Pat::Map(vec![(k1.clone(), None), (k2.clone(), None)]));
+                        }
+                        None => {
+                            let (a, b) = (self.fresh("u"), self.fresh("u"));
+                            binds.push((a.clone(), K::Num));
+                            binds.push((b.clone(), K::Num));
+                            ps.push(Pat::Seq(vec![Pat::Id(a, None), Pat::Id(b, None)], false));
+                        }
+                    }
+                    let last = self.fresh("u");
+                    binds.push((last.clone(), K::Num));
+                    ps.push(Pat::Id(last, None));
+                    args.push(FnArg { pat: Pat::Seq(ps, false), default: None, variadic: false });
                 }
                 Param::Unpack(k, rest, named) => {
                     let mut ps = vec![];
@@ -1555,6 +1590,18 @@ impl<'a> G<'a> {
                             args.push((self.num(1), false));
                         }
                     }
+                }
+                Param::UnpackNested(keys, _) => {
+                    // more elements than the pattern lists: the nested pattern counts from the end
+                    let extra = self.s.below(3) as usize;
+                    let mut items: Vec<E> = (0..extra).map(|_| self.num(1)).collect();
+                    let (v1, v2) = (self.num(1), self.num(1));
+                    items.push(match keys {
+                        Some((k1, k2)) => E::Map(vec![(k1.clone(), v1), (k2.clone(), v2)]),
+                        None => E::Tuple(vec![v1, v2]),
+                    });
+                    items.push(self.num(1));
+                    args.push((E::Tuple(items), false));
                 }
                 Param::Unpack(k, rest, _) => {
                     let n = match rest {
